@@ -136,7 +136,70 @@ func (o *Obligation) ScriptSeeded(extra ...*Term) string {
 // asserts builds the query; sliced=false keeps every assumption (used for replay
 // models, whose inputs must satisfy all preconditions).
 func (o *Obligation) asserts(sliced bool, extra ...*Term) []*Term {
-	asserts := append([]*Term{}, o.Gen.Defs[:o.NDefs]...)
+	var asserts []*Term
+	if sliced && o.Block != nil && o.Block.Parent() == o.Gen.Fn {
+		// A definition made in a block that cannot reach the program point is
+		// dropped when it mentions a symbol unknown to everything else (the values
+		// and heap versions created there); lazily stated global facts stay.
+		g := o.Gen
+		anc := g.ancestors(o.Block)
+		if g.symCache == nil {
+			g.symCache = map[*Term][]string{}
+		}
+		symsOf := func(t *Term) []string {
+			if r, ok := g.symCache[t]; ok {
+				return r
+			}
+			consts := map[string]*Sort{}
+			collectSyms([]*Term{t}, consts, map[string]*FunDecl{}, map[*Term]bool{})
+			r := make([]string, 0, len(consts))
+			for k := range consts {
+				r = append(r, k)
+			}
+			g.symCache[t] = r
+			return r
+		}
+		known := map[string]bool{}
+		foreign := make([]bool, o.NDefs)
+		for i, d := range g.Defs[:o.NDefs] {
+			if b, ok := g.defBlk[d]; ok && b.Parent() == g.Fn && !anc[b] {
+				foreign[i] = true
+				continue
+			}
+			for _, k := range symsOf(d) {
+				known[k] = true
+			}
+		}
+		for _, t := range extra {
+			for _, k := range symsOf(t) {
+				known[k] = true
+			}
+		}
+		for _, t := range []*Term{o.Reach, o.Goal} {
+			if t != nil {
+				for _, k := range symsOf(t) {
+					known[k] = true
+				}
+			}
+		}
+		for i, d := range g.Defs[:o.NDefs] {
+			if foreign[i] {
+				drop := false
+				for _, k := range symsOf(d) {
+					if !known[k] {
+						drop = true
+						break
+					}
+				}
+				if drop {
+					continue
+				}
+			}
+			asserts = append(asserts, d)
+		}
+	} else {
+		asserts = append([]*Term{}, o.Gen.Defs[:o.NDefs]...)
+	}
 	asserts = append(asserts, extra...)
 	reach := o.Reach
 	if o.caseSub != nil {
@@ -167,7 +230,26 @@ func (o *Obligation) asserts(sliced bool, extra ...*Term) []*Term {
 			}
 		}
 		if o.seeded {
-			sl = InstantiateSeeded(sl, 3, 48, len(extra)+2)
+			switch {
+			case o.ground && o.groundLevel == 0:
+				// no instances of user quantifiers at all
+			case o.ground && o.groundLevel == 1:
+				strictInst = true
+				sl = InstantiateSeeded(sl, 2, 24, len(extra)+2)
+				strictInst = false
+			case o.ground && o.groundLevel == 2:
+				strictInst = true
+				sl = InstantiateSeeded(sl, 4, 48, len(extra)+2)
+				strictInst = false
+			default:
+				sl = InstantiateSeeded(sl, 3, 48, len(extra)+2)
+			}
+			if o.ground {
+				// instances only: the query becomes (nearly) quantifier-free
+				for i, a := range sl {
+					sl[i] = dropPosForalls(a)
+				}
+			}
 		} else {
 			sl = Instantiate(sl, 2, 48)
 		}
@@ -591,12 +673,37 @@ func decide(o *Obligation, cfg *SolverCfg, known []KnownFinding, prop string, op
 		// goal False: "unsat" means the path condition itself is unsatisfiable
 		c0 := *cfg
 		c0.CrossCheck = false
-		r0 := SolveFirstOnly(&c0, o.ScriptSeeded())
+		c0.FirstS = 10
+		termMu.Lock()
+		o.seeded = true
+		cs := Script(o.asserts(false), true) // unsliced: a contradiction anywhere on the path counts
+		o.seeded = false
+		termMu.Unlock()
+		r0 := SolveFirstOnly(&c0, cs)
 		st := "ok"
 		if r0.Status == "unsat" {
 			st = "vacuous"
 		}
 		return &oblResult{O: o, Res: r0, Status: st}
+	}
+	if !o.MustSat && !cfg.CrossCheck {
+		// stage 0a: goal-directed instances only (no residual user quantifiers),
+		// with 0, 1 and 3 rounds of instantiation
+		for lvl := 0; lvl <= 2; lvl++ {
+			termMu.Lock()
+			o.seeded, o.ground, o.groundLevel = true, true, lvl
+			sg := Script(o.asserts(true), true)
+			o.seeded, o.ground, o.groundLevel = false, false, 0
+			termMu.Unlock()
+			if opts.KeepSMT != "" {
+				os.WriteFile(filepath.Join(opts.KeepSMT, fmt.Sprintf("%s.ground%d.smt2", sanitize(o.Name), lvl)), []byte(sg), 0o644)
+			}
+			rg := SolveFirstOnly(cfg, sg)
+			if rg.Status == "unsat" {
+				rg.Solver = "z3-new"
+				return &oblResult{O: o, Res: rg, Status: "proved"}
+			}
+		}
 	}
 	if !o.MustSat {
 		// stage 0: goal-directed instantiation, z3-new only, short limit
@@ -1057,21 +1164,75 @@ func resultType(sig *types.Signature) types.Type {
 	return sig.Results()
 }
 
+// dataCases: case analysis over the in-place/reallocate choice of the append
+// calls in the cone of influence of the goal (at most three of them).
+func dataCases(o *Obligation) []*mergeCase {
+	termMu.Lock()
+	defer termMu.Unlock()
+	consts := map[string]*Sort{}
+	collectSyms(o.asserts(true), consts, map[string]*FunDecl{}, map[*Term]bool{})
+	var bs []*Term
+	for n, srt := range consts {
+		if srt == SBool && strings.Contains(n, "!append.inplace!") {
+			bs = append(bs, Const(n, SBool))
+		}
+	}
+	if len(bs) == 0 || len(bs) > 3 {
+		return nil
+	}
+	sort.Slice(bs, func(i, j int) bool { return bs[i].Name < bs[j].Name })
+	var out []*mergeCase
+	for m := 0; m < 1<<len(bs); m++ {
+		sub := map[*Term]*Term{}
+		for i, b := range bs {
+			if m&(1<<i) != 0 {
+				sub[b] = True
+			} else {
+				sub[b] = False
+			}
+		}
+		out = append(out, &mergeCase{Cond: True, Sub: sub})
+	}
+	return out
+}
+
 func decideSplit(o *Obligation, cfg *SolverCfg) *SolveResult {
 	cases := o.Gen.mergeCases[o.Reach]
 	if len(cases) < 2 || len(cases) > 6 {
+		cases = dataCases(o)
+	}
+	if len(cases) < 2 {
 		return nil
 	}
 	var total int64
-	for _, mc := range cases {
-		termMu.Lock()
-		o.caseSub = mc
-		o.seeded = true
-		s0 := Script(o.asserts(true), true)
-		o.seeded = false
-		o.caseSub = nil
-		termMu.Unlock()
-		r0 := SolveFirstOnly(cfg, s0)
+	for ci, mc := range cases {
+		var r0 *SolveResult
+		for lvl := 0; lvl <= 2; lvl++ {
+			termMu.Lock()
+			o.caseSub = mc
+			o.seeded, o.ground, o.groundLevel = true, true, lvl
+			s0 := Script(o.asserts(true), true)
+			o.seeded, o.ground, o.groundLevel = false, false, 0
+			o.caseSub = nil
+			termMu.Unlock()
+			if d := os.Getenv("VP_KEEP_SPLIT"); d != "" {
+				os.WriteFile(filepath.Join(d, fmt.Sprintf("%s.case%d.ground%d.smt2", sanitize(o.Name), ci, lvl)), []byte(s0), 0o644)
+			}
+			r0 = SolveFirstOnly(cfg, s0)
+			if r0.Status == "unsat" {
+				break
+			}
+		}
+		if r0.Status != "unsat" {
+			termMu.Lock()
+			o.caseSub = mc
+			o.seeded = true
+			s0 := Script(o.asserts(true), true)
+			o.seeded = false
+			o.caseSub = nil
+			termMu.Unlock()
+			r0 = SolveFirstOnly(cfg, s0)
+		}
 		if r0.Status != "unsat" {
 			termMu.Lock()
 			o.caseSub = mc
@@ -1085,7 +1246,7 @@ func decideSplit(o *Obligation, cfg *SolverCfg) *SolveResult {
 		}
 		total += r0.Ms
 	}
-	return &SolveResult{Status: "unsat", Solver: "z3-new", Ms: total, Output: fmt.Sprintf("unsat (decided per incoming edge, %d cases)", len(cases)), All: map[string]string{"z3-new": "unsat"}}
+	return &SolveResult{Status: "unsat", Solver: "z3-new", Ms: total, Output: fmt.Sprintf("unsat (decided by case split, %d cases)", len(cases)), All: map[string]string{"z3-new": "unsat"}}
 }
 
 type lemmaResult struct {
